@@ -369,47 +369,42 @@ Qed.
 
 Lemma psnippet_yield : forall n st acc ss st',
   psnippet fok n st acc = POK (ss, st') ->
-  exists ss', ss = rev acc ++ ss' /\ exists trailing, toks st = flat_map ystmt ss' ++ trailing ++ toks st'
-    /\ (length trailing <= 1)%nat /\ cur_is st' T_EOF = true.
+  exists ss' s0, ss = rev acc ++ ss' /\ toks st = flat_map ystmt ss' ++ toks s0 /\ cur_is s0 T_EOF = true.
 Proof.
   induction n as [|n IH]; intros st acc ss st' H; [discriminate|].
-  cbn [psnippet] in H. destruct (peek_is st T_EOF) eqn:Ee.
-  { inversion H; subst. exists []. rewrite app_nil_r. split; [reflexivity|].
-    destruct (toks st) as [|t r] eqn:Et.
-    - exists []. rewrite after_next. unfold after. rewrite Et. repeat split; [simpl; lia | exact Ee].
-    - exists [t]. rewrite after_next. unfold after. rewrite Et. repeat split; [simpl; lia | exact Ee]. }
+  cbn [psnippet] in H. destruct (cur_is st T_EOF) eqn:Ee.
+  { inversion H; subst. exists [], st. rewrite app_nil_r. repeat split; auto. }
   bi H x H1. destruct x as [s0 s1].
   assert (Hc : toks st = cur st :: after st).
-  { apply toks_cur. intros E. unfold peek_is, peek in Ee. rewrite E in Ee. discriminate. }
+  { apply cur_not_eof. intros E. unfold cur_is in Ee. rewrite E in Ee. discriminate. }
   apply snippet_stmt_yield in H1; [|exact Hc].
-  apply IH in H. destruct H as [ss' [E1 [tr [E2 [E3 E4]]]]].
-  exists (s0 :: ss'). split.
+  apply IH in H. destruct H as [ss' [sx [E1 [E2 E3]]]].
+  exists (s0 :: ss'), sx. split; [|split; [|exact E3]].
   - rewrite E1. simpl. rewrite <- app_assoc. reflexivity.
-  - exists tr. split; [|split; [exact E3 | exact E4]]. cbn [flat_map]. rewrite H1, E2. lists.
+  - cbn [flat_map]. rewrite H1, E2. lists.
 Qed.
 
-(* ParseSnippetVCL: the statements are the tokens of the input in order; the snippet loop ends when
-   the token BEHIND cur is EOF, so at most one trailing token is dropped without a diagnostic *)
+(* ParseSnippetVCL (after the dangling-token fix): the statements are exactly the tokens of the
+   input, once, in order *)
 Theorem parse_snippet_yield ts v :
-  parse_snippet fok ts = POK v -> no_eof ts = true ->
-  exists trailing, ts = flat_map ystmt (vstmts v) ++ trailing /\ (length trailing <= 1)%nat.
+  parse_snippet fok ts = POK v -> no_eof ts = true -> ts = flat_map ystmt (vstmts v).
 Proof.
   unfold parse_snippet. intros H Hn. bi H x H1. destruct x as [ss s1]. inversion H; subst. cbn [vstmts].
-  apply psnippet_yield in H1. destruct H1 as [ss' [E1 [tr [E2 [E3 E4]]]]]. simpl in E1. subst ss'.
+  apply psnippet_yield in H1. destruct H1 as [ss' [s0 [E1 [E2 E3]]]]. simpl in E1. subst ss'.
   cbn [start toks] in E2.
-  assert (Hr : toks s1 = []).
-  { destruct (toks s1) as [|t r] eqn:Et; [reflexivity|]. exfalso.
-    unfold cur_is, cur in E4. rewrite Et in E4. simpl in E4.
-    unfold no_eof in Hn. rewrite E2, !forallb_app in Hn.
-    apply andb_true_iff in Hn. destruct Hn as [_ Hn]. apply andb_true_iff in Hn. destruct Hn as [_ Hn].
-    simpl in Hn. rewrite E4 in Hn. discriminate. }
-  rewrite Hr, app_nil_r in E2. exists tr. split; assumption.
+  assert (Hr : toks s0 = []).
+  { destruct (toks s0) as [|t r] eqn:Et; [reflexivity|]. exfalso.
+    unfold cur_is, cur in E3. rewrite Et in E3. simpl in E3.
+    unfold no_eof in Hn. rewrite E2, forallb_app in Hn.
+    apply andb_true_iff in Hn. destruct Hn as [_ Hn]. simpl in Hn. rewrite E3 in Hn. discriminate. }
+  rewrite Hr, app_nil_r in E2. exact E2.
 Qed.
 
-(* the dropped token is real: `esi; foo` parses as the single statement `esi;` *)
-Example snippet_drops_trailing_token :
-  exists v, parse_snippet fok [Tok T_ESI [] 0; Tok T_SEMICOLON [] 0; Tok T_IDENT [] 0] = POK v
-            /\ length (vstmts v) = 1%nat.
-Proof. eexists. split; [vm_compute; reflexivity | reflexivity]. Qed.
+(* a dangling last token is no longer dropped: `esi; foo` is an error, a trailing label is kept *)
+Example snippet_dangling_token :
+  (exists k t r, parse_snippet fok [Tok T_ESI [] 0; Tok T_SEMICOLON [] 0; Tok T_IDENT [] 0] = PErr k t r)
+  /\ exists v, parse_snippet fok [Tok T_ESI [] 0; Tok T_SEMICOLON [] 0; Tok T_IDENT (s2b "l:") 0] = POK v
+             /\ length (vstmts v) = 2%nat.
+Proof. split; [do 3 eexists; vm_compute; reflexivity | eexists; split; [vm_compute; reflexivity | reflexivity]]. Qed.
 
 End D.
